@@ -479,8 +479,8 @@ def stateless_forward(ctx: Ctx):
 
 
 def einsum_batch_symbol(ctx: Ctx):
-    """C14.j einsum / einops.einsum patterns: every DATA operand (anything but a module parameter `self.x`) names its first axis
-    with the symbol the output uses for its first axis -- the batch.  `"bs m o, b m e -> bs o e"` type-checks and runs, but `b`
+    """C14.j einsum / einops.einsum patterns: the LEADING index of every operand also occurs in another operand or in the output (for a
+    batch-leading operand that index is the batch).  `"bs m o, b m e -> bs o e"` type-checks and runs, but `b`
     is then an index that appears in one operand only and is summed away: every instance receives the sum over the whole batch
     (identical to the intended result for a batch of one).  All einsum calls under rl4co/models and rl4co/envs."""
     n = 0
@@ -508,15 +508,21 @@ def einsum_batch_symbol(ctx: Ctx):
                 continue
             bsym = out[0]
             bad = []
-            for expr, ix in zip(ops_, ins):
-                is_param = isinstance(expr, ast.Attribute) and isinstance(expr.value, ast.Name) and expr.value.id == "self"
-                t = toks(ix)
-                if not is_param and t and t[0] != bsym:
+            all_in = [toks(ix) for ix in ins]
+            for j_, (expr, ix) in enumerate(zip(ops_, ins)):
+                t = all_in[j_]
+                if not t:
+                    continue
+                lead = t[0]
+                # a leading index that occurs in no other operand and not in the output is summed away on its own: for a
+                # batch-leading operand that is the batch axis (weights `d e` share `d`; a trailing size-1 `one` is not a leading index)
+                elsewhere = lead in out or any(lead in o_ for k_, o_ in enumerate(all_in) if k_ != j_)
+                if not elsewhere:
                     bad.append(f"{ast.unparse(expr)[:30]}: '{ix}'")
             n += 1
             ctx.ob("C14.j", f"{mi.relpath}:{c.lineno}:einsum-batch-symbol", not bad, f"{mi.relpath}:{c.lineno}",
-                   f"pattern '{pat}': every data operand leads with the output's batch symbol '{bsym}'" if not bad else
-                   f"pattern '{pat}': operand(s) {bad} lead with another symbol than the output's '{bsym}' -- that index is summed over, mixing the instances of the batch",
+                   f"pattern '{pat}': no operand's leading index is left dangling" if not bad else
+                   f"pattern '{pat}': the leading index of {bad} occurs nowhere else -- it is summed over on its own, i.e. over the batch: every instance receives the sum over all instances",
                    construct=f"einsum:{pat.replace(' ', '')}:batch-symbol")
     if n < 6:
         raise AnalysisError(f"einsum sites lost: {n} < 6")
